@@ -270,7 +270,7 @@ func slice(cx *pathCtx, x, lo, hi, max value) value {
 	case string:
 		Len = len(x)
 	case *symstr:
-		cx.unsupported("slicing a symbolic string")
+		cx.unsupported("slicing a symbolic string " + x.String() + " in " + cx.curFn)
 	case []value:
 		Len = len(x)
 		Cap = cap(x)
